@@ -48,6 +48,13 @@ type Config struct {
 	Trace      bool  // record every grant (task, kind, pc)
 	NowQuantum int64 // ns added to the clock by each Now() call
 	CapturePC  bool  // record the application call site of every yield
+	// Preemption injection: after its operation has been applied, a granted task
+	// is, with probability 1/PreemptEvery, not resumed but left parked for
+	// PreemptNs of simulated time (a descheduled goroutine: the effect of the
+	// operation is visible, the instructions after it run later). Tape choice;
+	// 0 on the tape = no preemption.
+	PreemptEvery int
+	PreemptNs    int64
 }
 
 // Op is a request posted by a task at a yield point.
@@ -117,9 +124,10 @@ type World struct {
 	PanicStack string
 	PanicTask  int
 
-	Trace     []TraceEvent
-	SchedHash uint64 // rolling hash over (task, kind) of context switches
-	Switches  int
+	Trace       []TraceEvent
+	SchedHash   uint64 // rolling hash over (task, kind) of context switches
+	Switches    int
+	Preemptions int
 
 	// Ext lets the other sim packages attach their per-world state.
 	FS any
@@ -367,6 +375,20 @@ func (w *World) pick() *Task {
 	return runnable[k]
 }
 
+// preemptible: operations after which a task may be held back. Only those whose
+// effect is complete once applied by the scheduler (locks, file operations, clock
+// and context reads); never channel operations, select, go or close, where the
+// task itself still has to perform the real operation it was granted.
+func preemptible(kind string) bool {
+	switch kind {
+	case "Lock", "Unlock", "TryLock", "RW.Lock", "RW.Unlock", "RW.RLock", "RW.RUnlock", "RW.Lock.announce",
+		"open", "create", "truncopen", "close", "read", "readat", "write", "writeat", "truncate", "seek", "stat", "sync",
+		"rename", "remove", "mkdir", "readdir", "time.Now", "ctx.Err":
+		return true
+	}
+	return false
+}
+
 // Blocked reports whether the parked task t cannot proceed now (scheduler side).
 func (w *World) Blocked(t *Task) bool { return t.op != nil && !w.ready(t) }
 
@@ -460,6 +482,26 @@ func (w *World) grant(t *Task) {
 		// the effect that ended the world (e.g. a crash) has been applied; the
 		// task must not continue. It stays parked; killAll reaps it.
 		return
+	}
+	if w.Cfg.PreemptEvery > 0 && op != nil && preemptible(op.Kind) {
+		pe := w.Cfg.PreemptEvery
+		if w.Tape.Choose(2, func(r *Rand) int {
+			if r.Intn(pe) == 0 {
+				return 1
+			}
+			return 0
+		}) == 1 {
+			w.Preemptions++
+			t.op = &Op{Kind: "preempted", WakeAt: w.now + w.Cfg.PreemptNs}
+			// hand the baton back to the scheduler loop: the task stays parked
+			w.cur = nil
+			next := w.pick()
+			if next == nil {
+				return
+			}
+			w.grant(next)
+			return
+		}
 	}
 	t.wake <- struct{}{}
 }
